@@ -205,44 +205,10 @@ func runC16(c *Ctx) {
 		c.Undecided("claim", "connInFlight", "no store of a connection into the in-flight slot found")
 	}
 
-	// (b) release is identity-conditional
-	if rf := c.MustFunc(pkgProxy + ":(*connectionRequest).resetIfInFlightIs"); rf != nil {
-		n := 0
-		eachInstr(rf, func(in ssa.Instruction) {
-			st, ok := in.(*ssa.Store)
-			if !ok || !isInFlightAddr(st.Addr) {
-				return
-			}
-			n++
-			g, ns := MustCross(st, func(e Edge, cond ssa.Value, truth bool) bool {
-				bo, ok := cond.(*ssa.BinOp)
-				if !ok || !truth || bo.Op.String() != "==" {
-					return false
-				}
-				for _, side := range [][2]ssa.Value{{bo.X, bo.Y}, {bo.Y, bo.X}} {
-					ld, isLd := strip(side[0]).(*ssa.UnOp)
-					_, isPrm := strip(side[1]).(*ssa.Parameter)
-					if isLd && isInFlightAddr(ld.X) && isPrm {
-						return true
-					}
-				}
-				return false
-			})
-			c.Check("release-identity", "connInFlight=nil@resetIfInFlightIs", st, g && ns > 0,
-				"the deferred reset clears the in-flight slot although it may hold another request's connection")
-		})
-		if n == 0 {
-			c.Undecided("release-identity", "resetIfInFlightIs", "no store")
-		}
-	}
+	// (b) release is identity-conditional: whatever internalConnect defers to give the slot back
+	// (followed through static calls) may clear it only after comparing it with the request's own connection
 	if ic := c.MustFunc(pkgProxy + ":(*connectionRequest).internalConnect"); ic != nil {
-		ok := false
-		eachInstr(ic, func(in ssa.Instruction) {
-			if d, isD := in.(*ssa.Defer); isD && strings.HasSuffix(calleeName(&d.Call), "resetIfInFlightIs") {
-				ok = true
-			}
-		})
-		c.CheckAt("release-identity", "defer resetIfInFlightIs@internalConnect", c.P.Pos(ic.Pos()), ok, "a connection attempt must release its own in-flight claim on every exit")
+		checkReleaseIdentity(c, ic, isInFlightAddr)
 	}
 
 	// (c) the previous backend connection is closed on a switch
